@@ -1144,9 +1144,9 @@ def _support_post(c):
     n0, n1 = c.muts['nodes']
     return [('complete', Implies(S.hl[absz(a.u)], l1.has[HL])),
             ('sound', Implies(l1.has[HL], Or(l0.has[HL], S.hl[absz(a.u)]))),
-            ('levels-grow', ForAll([l_], Implies(l0.has[l_], l1.has[l_]), patterns=[l0.has[l_]])),
+            ('levels-grow', ForAll([l_], Implies(l0.has[l_], l1.has[l_]), patterns=[l0.has[l_], l1.has[l_]])),
             ('levels-in-range', in_range(S, l1)),
-            ('visited-grow', ForAll([x_], Implies(n0.has[x_], n1.has[x_]), patterns=[n0.has[x_]])),
+            ('visited-grow', ForAll([x_], Implies(n0.has[x_], n1.has[x_]), patterns=[n0.has[x_], n1.has[x_]])),
             ('new-visited-closed', ForAll([x_], Implies(And(n1.has[x_], Not(n0.has[x_])),
                                                         And(S.dom[x_], x_ >= 1, S.lvl[x_] >= lv(S, a.u), Implies(S.hl[x_], l1.has[HL]))),
                                           patterns=[n1.has[x_]]))]
@@ -1169,3 +1169,44 @@ for _flag, _ret in ((False, 'set:name'), (True, 'set:int')):
     reg(Contract('dd.bdd.BDD.support!proved:' + ('levels' if _flag else 'names'), [('self', 'mgr'), ('u', 'int'), ('as_levels', 'bool')],
                  pre=lambda c, _f=_flag: wf(c.S, c.uses) + [('ref', isref(c.S, c.a.u)), ('as_levels', c.a.as_levels == BoolVal(_f))],
                  post=support_post, ret=_ret, uses={'hl', 'order'}))
+
+
+# ---------------------------------------------------------------------------------------------------------------
+# pickle loader recursion (C12): `succ` is the node table stored in the file, modelled as a second heap F
+def load_memo_valid(F_, S, umap):
+    return ForAll([x_], Implies(umap.has[x_], And(x_ > 1, F_.dom[x_], umap.val[x_] > 0, S.dom[umap.val[x_]],
+                                                  S.sem[umap.val[x_]] == F_.sem2[x_])), patterns=[umap.has[x_]])
+
+
+def load_pre(c):
+    S, a = c.S, c.a
+    F_ = c.mgrs[a.succ_key]
+    lm = a.level_map
+    return wf(S, c.uses) + [('file:' + nm, g) for nm, g in wf(F_, c.uses)] + [
+        ('ref', isref(F_, a.u)),
+        ('level_map-total', ForAll([l_], Implies(And(0 <= l_, l_ < F_.nvars), And(lm.has[l_], 0 <= lm.val[l_], lm.val[l_] < S.nvars)),
+                                   patterns=[lm.has[l_]])),
+        ('A2-is-A-after-level_map', ForAll([l_], Implies(lm.has[l_], A2[l_] == A[lm.val[l_]]), patterns=[lm.has[l_]])),
+        ('memo', load_memo_valid(F_, S, a.umap))]
+
+
+def load_post(c):
+    S0, S1, a, r = c.S0, c.S1, c.a, c.r
+    F_ = c.mgrs[a.succ_key]
+    return wf(S1, c.uses) + [('Ext', Ext(S0, S1, c.uses)),
+                             ('same-function', And(isref(S1, r), semr(S1, r) == semr(F_, a.u, 'sem2'))),
+                             ('same-sign', (r > 0) == (a.u > 0)),
+                             ('memo', load_memo_valid(F_, S1, c.muts['umap'][1])),
+                             # (a complemented reference is never found in the memo - `u in umap` tests the signed key - and is
+                             # recomputed; the entry is then overwritten with an equal value, which only canonicity shows: keys only)
+                             ('memo-keys-grow', ForAll([x_], Implies(c.muts['umap'][0].has[x_], c.muts['umap'][1].has[x_]),
+                                                       patterns=[c.muts['umap'][0].has[x_]])), flags(S0, S1),
+                             ('order-kept', M.keep(S0, S1, list(M.ORDER_FIELDS)))]
+
+
+LOADREC = reg(Contract('dd.bdd.BDD._load', [('self', 'mgr'), ('u', 'int'), ('succ', 'heap:F'), ('umap', 'dict:int->int'),
+                                           ('level_map', 'dict:int->int')],
+                       pre=load_pre, post=load_post, modifies=REC_MOD, ret='int', uses={'cache', 'rc', 'sem2', 'sem1'},
+                       mutates=['umap'], raises={'_NeedsReordering': NR(nr_post()), 'RuntimeError': Raise(when=lambda c: BoolVal(True))},
+                       note='the node table read from the file is assumed to be a well-formed diagram (it was dumped by a WF manager)'))
+LOADREC.call_skip = {'level_map-total', 'A2-is-A-after-level_map'} | {'file:' + k for k in ()}
